@@ -953,6 +953,337 @@ theorem piecesOf_bounds (p : Params) (letter : Char) (D : FDigits) :
   all_goals refine ⟨?_, ?_, ?_, ?_, ?_, ?_, ?_⟩
   all_goals first | (split_ifs <;> omega) | (split_ifs <;> simp) | omega
 
+theorem ofNat_ne_minus (n : Nat) (h : 48 ≤ n) : Char.ofNat n ≠ '-' := by
+  intro e
+  have h2 : (Char.ofNat n).toNat = 45 := by rw [e]; rfl
+  unfold Char.ofNat at h2
+  split at h2
+  · simp [Char.ofNatAux, Char.toNat] at h2; omega
+  · revert h2; decide
+
+theorem radix_digitChar_ge (base : Int) (d : Nat) : 48 ≤ Radix.digitChar base d := by
+  unfold Radix.digitChar; split_ifs <;> omega
+
+/-- the '-' test of doprntf.c:132 on what mpf_get_str returns: exactly the negative operands -/
+theorem get_str_neg (base : Int) (nd : Nat) (f : Mpf.F) :
+    (decide (((MpfStr.get_str base nd f).1.map Char.ofNat).head? = some '-')) = decide (f.size < 0) := by
+  unfold MpfStr.get_str
+  simp only []
+  by_cases h : f.size < 0
+  · simp [h]
+  · simp only [h, if_false, nil_append, decide_false, decide_eq_false_iff_not]
+    cases hd : (MpfStr.get_digits base.natAbs nd f).1 with
+    | nil => simp
+    | cons a t =>
+      simp only [map_cons, head?_cons, Option.some.injEq]
+      exact ofNat_ne_minus _ (radix_digitChar_ge base a)
+
+theorem mpfDigits_neg (p : Params) (f : Mpf.F) : (mpfDigits p f).neg = decide (f.size < 0) := by
+  unfold mpfDigits
+  simp only []
+  split_ifs <;> exact get_str_neg _ _ _
+
+/-! ### mpf_set_str accepts what the scanner collects -/
+
+/-- byte codes of decimal digits -/
+def DigCodes (l : List Nat) : Prop := ∀ c ∈ l, 48 ≤ c ∧ c ≤ 57
+
+theorem dv_digit (c : Nat) (h : 48 ≤ c ∧ c ≤ 57) : Radix.digitValue 0 c < 10 := by
+  obtain ⟨h1, h2⟩ := h
+  interval_cases c <;> decide
+
+theorem digit_not_marker (c : Nat) (h : 48 ≤ c ∧ c ≤ 57) : MpfStr.isMarker 10 c = false := by
+  obtain ⟨h1, h2⟩ := h
+  interval_cases c <;> decide
+
+theorem digit_not_space (c : Nat) (h : 48 ≤ c ∧ c ≤ 57) : Radix.isSpace c = false := by
+  obtain ⟨h1, h2⟩ := h
+  interval_cases c <;> decide
+
+theorem splitLast_none (l : List Nat) (h : ∀ c ∈ l, MpfStr.isMarker 10 c = false) : MpfStr.splitLast 10 l = none := by
+  induction l with
+  | nil => rfl
+  | cons a t ih =>
+    simp [MpfStr.splitLast, ih (fun c hc => h c (mem_cons_of_mem _ hc)), h a mem_cons_self]
+
+theorem splitLast_marker (A B : List Nat) (e : Nat) (he : MpfStr.isMarker 10 e = true) (hB : ∀ c ∈ B, MpfStr.isMarker 10 c = false) :
+    MpfStr.splitLast 10 (A ++ e :: B) = some (A, B) := by
+  induction A with
+  | nil => simp [MpfStr.splitLast, splitLast_none B hB, he]
+  | cons a t ih => simp [MpfStr.splitLast, ih]
+
+theorem scanMant_digits (l rest ds : List Nat) (dot : Option Nat) (hl : DigCodes l)
+    (hr : MpfStr.scanMant (Radix.digitValue 0) 10 rest = some (ds, dot)) :
+    MpfStr.scanMant (Radix.digitValue 0) 10 (l ++ rest) = some (l.map (Radix.digitValue 0) ++ ds, dot) := by
+  induction l with
+  | nil => simpa using hr
+  | cons a t ih =>
+    have ha := hl a mem_cons_self
+    have h46 : a ≠ 46 := by omega
+    simp [MpfStr.scanMant, ih (fun c hc => hl c (mem_cons_of_mem _ hc)), digit_not_space a ha, h46, dv_digit a ha]
+
+/-- digits, optionally a point and digits -/
+theorem scanMant_mantissa (ip fp : List Nat) (hip : DigCodes ip) (hfp : DigCodes fp) (pt : Bool) :
+    ∃ r, MpfStr.scanMant (Radix.digitValue 0) 10 (ip ++ (if pt then 46 :: fp else [])) = some r := by
+  cases pt with
+  | false =>
+    have := scanMant_digits ip [] [] none hip rfl
+    exact ⟨_, by simpa using this⟩
+  | true =>
+    have h1 := scanMant_digits fp [] [] none hfp rfl
+    simp only [append_nil] at h1
+    have h2 : MpfStr.scanMant (Radix.digitValue 0) 10 (46 :: fp) = some (fp.map (Radix.digitValue 0), some (fp.map (Radix.digitValue 0)).length) := by
+      simp [MpfStr.scanMant, h1, show Radix.isSpace 46 = false by decide]
+    exact ⟨_, scanMant_digits ip _ _ _ hip h2⟩
+
+theorem scanExp_some (es ed : List Nat) (hes : es = [] ∨ es = [45] ∨ es = [43]) (hed : DigCodes ed) (hne : ed ≠ []) :
+    ∃ x, MpfStr.scanExp (Radix.digitValue 0) 10 (es ++ ed) = some x := by
+  cases ed with
+  | nil => exact absurd rfl hne
+  | cons a t =>
+    have ha := hed a mem_cons_self
+    have hda := dv_digit a ha
+    unfold MpfStr.scanExp
+    rcases hes with rfl | rfl | rfl
+    · have h1 : a ≠ 43 := by omega
+      have h2 : a ≠ 45 := by omega
+      rw [nil_append]
+      split
+      rename_i x sgn t' heq
+      have ht' : t' = a :: t := by
+        split at heq
+        · rename_i r h; simp only [cons.injEq] at h; omega
+        · rename_i r h; simp only [cons.injEq] at h; omega
+        · simp only [Prod.mk.injEq] at heq; exact heq.2.symm
+      subst ht'
+      simp [hda]
+    · simp [hda]
+    · simp [hda]
+
+theorem mant_no_marker (ip fp : List Nat) (pt : Bool) (hip : DigCodes ip) (hfp : DigCodes fp) :
+    ∀ c ∈ ip ++ (if pt then 46 :: fp else []), MpfStr.isMarker 10 c = false := by
+  intro c hc
+  rcases mem_append.mp hc with h | h
+  · exact digit_not_marker c (hip c h)
+  · cases pt with
+    | false => simp at h
+    | true =>
+      simp only [if_true, mem_cons] at h
+      rcases h with rfl | h
+      · decide
+      · exact digit_not_marker c (hfp c h)
+
+theorem parseBody_ok (neg : Bool) (ip fp : List Nat) (pt : Bool) (xc : List Nat) (hip : DigCodes ip) (hfp : DigCodes fp)
+    (hne : ip ≠ [] ∨ (pt = true ∧ fp ≠ []))
+    (hx : xc = [] ∨ ∃ e es ed, (e = 101 ∨ e = 69) ∧ (es = [] ∨ es = [45] ∨ es = [43]) ∧ ed ≠ [] ∧ DigCodes ed ∧ xc = e :: (es ++ ed)) :
+    MpfStr.parseBody neg 10 10 ((ip ++ (if pt then 46 :: fp else [])) ++ xc) ≠ none := by
+  obtain ⟨r, hscan⟩ := scanMant_mantissa ip fp hip hfp pt
+  have hnm := mant_no_marker ip fp pt hip hfp
+  -- the first character
+  have hfirst : ∃ c R, ip ++ (if pt then 46 :: fp else []) = c :: R ∧
+      (Radix.digitValue 0 c < 10 ∨ (c = 46 ∧ Radix.digitValue 0 ((R ++ xc).headD 0) < 10)) := by
+    cases ip with
+    | cons a t => exact ⟨a, _, rfl, Or.inl (dv_digit a (hip a mem_cons_self))⟩
+    | nil =>
+      rcases hne with h | ⟨rfl, h⟩
+      · exact absurd rfl h
+      · cases fp with
+        | nil => exact absurd rfl h
+        | cons b t => exact ⟨46, b :: t, rfl, Or.inr ⟨rfl, by simpa using dv_digit b (hfp b mem_cons_self)⟩⟩
+  obtain ⟨c, R, hM, hcond⟩ := hfirst
+  rw [hM] at hscan hnm ⊢
+  have hRm : ∀ c' ∈ R, MpfStr.isMarker 10 c' = false := fun c' hc' => hnm c' (mem_cons_of_mem _ hc')
+  obtain ⟨ds, dot⟩ := r
+  rcases hx with rfl | ⟨e, es, ed, he, hes, hedne, hed, rfl⟩
+  · rw [append_nil] at hcond ⊢
+    have hsp : MpfStr.splitLast 10 R = none := splitLast_none R hRm
+    unfold MpfStr.parseBody
+    simp only [show ¬ (36 < 10) by omega, if_false, hcond, not_true_eq_false, hsp, hscan]
+    split <;> simp
+  · have hB : ∀ c' ∈ es ++ ed, MpfStr.isMarker 10 c' = false := by
+      intro c' hc'
+      rcases mem_append.mp hc' with h | h
+      · rcases hes with rfl | rfl | rfl <;> simp at h <;> subst h <;> decide
+      · exact digit_not_marker c' (hed c' h)
+    have hsp : MpfStr.splitLast 10 (R ++ e :: (es ++ ed)) = some (R, es ++ ed) :=
+      splitLast_marker R (es ++ ed) e (by rcases he with rfl | rfl <;> decide) hB
+    obtain ⟨x, hxs⟩ := scanExp_some es ed hes hed hedne
+    unfold MpfStr.parseBody
+    simp only [show ¬ (36 < 10) by omega, if_false, cons_append, hcond, not_true_eq_false, hsp, hscan, hxs]
+    split <;> simp
+
+theorem takeWhile_all_nat (p : Nat → Bool) (l : List Nat) (h : ∀ c ∈ l, p c = true) : l.takeWhile p = l := by
+  induction l with
+  | nil => rfl
+  | cons a t ih => simp [h a mem_cons_self, ih (fun c hc => h c (mem_cons_of_mem _ hc))]
+
+theorem clean_prefix (l : List Nat) (h : ∀ c ∈ l, 43 ≤ c) : (l.takeWhile (· != 0)).dropWhile Radix.isSpace = l := by
+  have h1 : l.takeWhile (· != 0) = l := by
+    apply takeWhile_all_nat
+    intro c hc
+    have := h c hc
+    simp; omega
+  rw [h1]
+  cases l with
+  | nil => rfl
+  | cons a t =>
+    have ha := h a mem_cons_self
+    have : Radix.isSpace a = false := by
+      unfold Radix.isSpace
+      simp; omega
+    simp [this]
+
+/-- an exponent as the scanner collects it: nothing, or the letter, an optional sign and at least one digit -/
+def ExpOk (x : List Char) : Prop :=
+  x = [] ∨ ∃ e es ed, (e = 'e' ∨ e = 'E') ∧ (es = [] ∨ es = ['-'] ∨ es = ['+']) ∧ ed ≠ [] ∧ (∀ c ∈ ed, isdigit c = true) ∧ x = e :: (es ++ ed)
+
+theorem expSpec_text (k : Nat) (m u s : List Char) (h : (expSpec k m u).text = some s) : ∃ x, ExpOk x ∧ s = m ++ x := by
+  unfold expSpec at h
+  split at h
+  · rename_i e t
+    split at h
+    · rename_i he
+      simp only [] at h
+      split at h
+      · cases h
+      · rename_i hne
+        simp only [Option.some.injEq] at h
+        refine ⟨e :: ((expSign t).1 ++ (expSign t).2.takeWhile isdigit), Or.inr ⟨e, (expSign t).1, _, he, ?_, hne, ?_, rfl⟩, ?_⟩
+        · unfold expSign; split <;> simp
+        · intro c hc; exact mem_takeWhile_imp' _ _ _ hc
+        · rw [← h]; simp
+    · simp only [Option.some.injEq] at h
+      exact ⟨[], Or.inl rfl, by simp [h]⟩
+  · simp only [Option.some.injEq] at h
+    exact ⟨[], Or.inl rfl, by simp [h]⟩
+
+theorem mantSpec_text (sg : List Char) (k : Nat) (u s : List Char) (h : (mantSpec sg k u).text = some s) :
+    ∃ (ip fp : List Char) (pt : Bool) (x : List Char), (∀ c ∈ ip, isdigit c = true) ∧ (∀ c ∈ fp, isdigit c = true) ∧
+      (ip ≠ [] ∨ (pt = true ∧ fp ≠ [])) ∧ ExpOk x ∧ s = sg ++ (ip ++ (if pt then '.' :: fp else [])) ++ x := by
+  have hip : ∀ c ∈ u.takeWhile isdigit, isdigit c = true := fun c hc => mem_takeWhile_imp' _ _ _ hc
+  unfold mantSpec at h
+  simp only [] at h
+  split at h
+  · rename_i t ht
+    have hfp : ∀ c ∈ t.takeWhile isdigit, isdigit c = true := fun c hc => mem_takeWhile_imp' _ _ _ hc
+    split at h
+    · cases h
+    · rename_i hne
+      obtain ⟨x, hx, rfl⟩ := expSpec_text _ _ _ _ h
+      refine ⟨_, _, true, x, hip, hfp, ?_, hx, by simp⟩
+      by_cases h1 : u.takeWhile isdigit = []
+      · exact Or.inr ⟨rfl, fun h2 => hne ⟨h1, h2⟩⟩
+      · exact Or.inl h1
+  · split at h
+    · cases h
+    · rename_i hne
+      obtain ⟨x, hx, rfl⟩ := expSpec_text _ _ _ _ h
+      exact ⟨_, [], false, x, hip, by simp, Or.inl hne, hx, by simp⟩
+
+theorem digCodes_map (l : List Char) (h : ∀ c ∈ l, isdigit c = true) : DigCodes (l.map Char.toNat) := by
+  intro n hn
+  obtain ⟨c, hc, rfl⟩ := mem_map.mp hn
+  exact (isdigit_iff c).mp (h c hc)
+
+/-- mpf_set_str accepts every text the scanner hands to it (the ASSERT_NOCARRY of ismpf.cc:130 cannot fire) -/
+theorem parse_scanned (u s : List Char) (h : (floatSpec u).text = some s) : MpfStr.parse 10 (s.map Char.toNat) ≠ none := by
+  have hshape : ∃ (sg ip fp : List Char) (pt : Bool) (x : List Char), (sg = [] ∨ sg = ['-']) ∧ (∀ c ∈ ip, isdigit c = true) ∧
+      (∀ c ∈ fp, isdigit c = true) ∧ (ip ≠ [] ∨ (pt = true ∧ fp ≠ [])) ∧ ExpOk x ∧ s = sg ++ (ip ++ (if pt then '.' :: fp else [])) ++ x := by
+    unfold floatSpec at h
+    split at h
+    · obtain ⟨ip, fp, pt, x, h1, h2, h3, h4, h5⟩ := mantSpec_text _ _ _ _ h; exact ⟨_, ip, fp, pt, x, Or.inr rfl, h1, h2, h3, h4, h5⟩
+    · obtain ⟨ip, fp, pt, x, h1, h2, h3, h4, h5⟩ := mantSpec_text _ _ _ _ h; exact ⟨_, ip, fp, pt, x, Or.inl rfl, h1, h2, h3, h4, h5⟩
+    · obtain ⟨ip, fp, pt, x, h1, h2, h3, h4, h5⟩ := mantSpec_text _ _ _ _ h; exact ⟨_, ip, fp, pt, x, Or.inl rfl, h1, h2, h3, h4, h5⟩
+  obtain ⟨sg, ip, fp, pt, x, hsg, hip, hfp, hne, hx, rfl⟩ := hshape
+  have hipc := digCodes_map ip hip
+  have hfpc := digCodes_map fp hfp
+  have hnec : ip.map Char.toNat ≠ [] ∨ (pt = true ∧ fp.map Char.toNat ≠ []) := by
+    rcases hne with h | ⟨h1, h2⟩
+    · exact Or.inl (by simpa using h)
+    · exact Or.inr ⟨h1, by simpa using h2⟩
+  have hxc : x.map Char.toNat = [] ∨ ∃ e es ed, (e = 101 ∨ e = 69) ∧ (es = [] ∨ es = [45] ∨ es = [43]) ∧ ed ≠ [] ∧ DigCodes ed ∧
+      x.map Char.toNat = e :: (es ++ ed) := by
+    rcases hx with rfl | ⟨e, es, ed, he, hes, hedne, hed, rfl⟩
+    · exact Or.inl rfl
+    · refine Or.inr ⟨e.toNat, es.map Char.toNat, ed.map Char.toNat, ?_, ?_, by simpa using hedne, digCodes_map ed hed, by simp⟩
+      · rcases he with rfl | rfl
+        · exact Or.inl rfl
+        · exact Or.inr rfl
+      · rcases hes with rfl | rfl | rfl
+        · exact Or.inl rfl
+        · exact Or.inr (Or.inl rfl)
+        · exact Or.inr (Or.inr rfl)
+  have hMmap : (ip ++ (if pt then '.' :: fp else [])).map Char.toNat = ip.map Char.toNat ++ (if pt then 46 :: fp.map Char.toNat else []) := by
+    cases pt <;> simp
+  have key := parseBody_ok
+  generalize hbody : (ip.map Char.toNat ++ (if pt then 46 :: fp.map Char.toNat else [])) ++ x.map Char.toNat = body at *
+  have hbody43 : ∀ c ∈ body, 43 ≤ c := by
+    intro c hc
+    rw [← hbody] at hc
+    rcases mem_append.mp hc with h | h
+    · rcases mem_append.mp h with h | h
+      · have := hipc c h; omega
+      · cases pt with
+        | false => simp at h
+        | true =>
+          simp only [if_true, mem_cons] at h
+          rcases h with rfl | h
+          · omega
+          · have := hfpc c h; omega
+    · rcases hxc with h0 | ⟨e, es, ed, he, hes, _, hed, h0⟩
+      · rw [h0] at h; simp at h
+      · rw [h0] at h
+        simp only [mem_cons, mem_append] at h
+        rcases h with rfl | h | h
+        · rcases he with rfl | rfl <;> omega
+        · rcases hes with rfl | rfl | rfl <;> simp at h <;> omega
+        · have := hed c h; omega
+  have hbodyhead : body.head? ≠ some 45 := by
+    have := parseBody_ok false _ _ pt _ hipc hfpc hnec hxc
+    rw [hbody] at this
+    intro hh
+    cases hb : body with
+    | nil => rw [hb] at hh; simp at hh
+    | cons a t =>
+      rw [hb] at hh this
+      simp only [head?_cons, Option.some.injEq] at hh
+      subst hh
+      revert this
+      unfold MpfStr.parseBody
+      simp only [show ¬ (36 < 10) by omega, if_false]
+      have h45 : ¬ Radix.digitValue 0 45 < 10 := by decide
+      simp [h45]
+  have hs0 : (sg ++ (ip ++ (if pt then '.' :: fp else [])) ++ x).map Char.toNat = sg.map Char.toNat ++ body := by
+    rw [← hbody, ← hMmap]; simp
+  rw [hs0]
+  have hb10 : MpfStr.baseOf 10 = 10 := by decide
+  have he10 : MpfStr.expBaseOf 10 = 10 := by decide
+  unfold MpfStr.parse
+  simp only [hb10, he10, show ¬ ((10 : Nat) < 2 ∨ 62 < (10 : Nat)) by omega, if_false]
+  rcases hsg with rfl | rfl
+  · simp only [map_nil, nil_append, clean_prefix body hbody43]
+    have hneg : (body.head? == some 45) = false := by
+      cases hh : body.head? with
+      | none => rfl
+      | some a =>
+        have : a ≠ 45 := fun e => hbodyhead (by rw [hh, e])
+        simp [this]
+    simp only [hneg, Bool.false_eq_true, if_false]
+    rw [← hbody]
+    exact parseBody_ok false _ _ pt _ hipc hfpc hnec hxc
+  · have h43 : ∀ c ∈ (['-'].map Char.toNat) ++ body, 43 ≤ c := by
+      intro c hc
+      simp only [map_cons, map_nil, cons_append, nil_append, mem_cons] at hc
+      rcases hc with rfl | hc
+      · decide
+      · exact hbody43 c hc
+    simp only [clean_prefix _ h43]
+    simp only [map_cons, map_nil, cons_append, nil_append, head?_cons, tail_cons]
+    have : ((some ('-' : Char).toNat : Option Nat) == some 45) = true := by decide
+    simp only [this, if_true]
+    rw [← hbody]
+    exact parseBody_ok true _ _ pt _ hipc hfpc hnec hxc
+
 end
 
 end Mpir.CxxIo
